@@ -23,6 +23,7 @@ import (
 	"errors"
 	"fmt"
 	"net/http"
+	"os"
 	"runtime"
 	"strings"
 	"time"
@@ -198,6 +199,8 @@ func restScenario(s restSpec) vx.Scenario {
 			req.Header.Set("Upgrade", "websocket")
 		case "sse":
 			req.Header.Set("Accept", "text/event-stream")
+		default:
+			applyHdr(req, s.Exempt) // an exempt form of reqhdr.go
 		}
 		o.startedAt = vsched.Elapsed()
 		func() {
@@ -829,7 +832,13 @@ func main() {
 		sc = append(sc, restScenario(restSpec{Acts: "HCW", End: "ret", Parent: "none", Exempt: ex}))
 		sc = append(sc, restScenario(restSpec{Acts: "W", End: "ret", Parent: "later", Exempt: ex}))
 	}
+	for _, f := range exemptForms {
+		sc = append(sc, restScenario(restSpec{Acts: "HCW", End: "ret", Parent: "none", Exempt: f.Name}))
+		sc = append(sc, restScenario(restSpec{Acts: "W", End: "ret", Parent: "later", Exempt: f.Name}))
+	}
 	sc = append(sc, flushScenarios(cfg.Thorough())...)
+	sc = append(sc, hdrScenarios(cfg.Thorough())...)
+	sc = append(sc, bigScenarios(cfg.Thorough())...)
 	sc = append(sc, chainScenarios(cfg.Thorough())...)
 	sc = append(sc, orderScenarios(cfg.Thorough())...)
 	sc = append(sc, srvScenarios(cfg.Thorough())...)
@@ -901,6 +910,19 @@ func main() {
 			}
 		}
 	}
+	if only := os.Getenv("VERIF_C04_ONLY"); only != "" && cfg.Replay == "" {
+		// development aid: run only the scenarios whose name contains one of the comma-separated substrings
+		var keep []vx.Scenario
+		for _, x := range sc {
+			for _, sub := range strings.Split(only, ",") {
+				if strings.Contains(x.Name, sub) {
+					keep = append(keep, x)
+					break
+				}
+			}
+		}
+		sc = keep
+	}
 	vx.Main(cfg, r, sc, vx.Bounds{P: 3, T: 1}, vx.Bounds{P: 4, T: 2},
-		"every interleaving (preemption bound / timer-deviation bound per scenario in the evidence) of a handler script with the expiry of the deadline on the virtual clock and client cancellation, for all scripts of <= 3 (4 thorough) header/status/body actions x 4 endings on the REST TimeoutHandler, all work behaviours x parent deadlines on the zRPC server interceptor and fx.DoWithTimeout, all default x per-call x incoming-deadline combinations of the zRPC client interceptor, alone and inside the unary interceptor chain as the real client assembles it (trace, duration, prometheus, breaker, timeout middleware on/off) and all global x per-route REST timeout settings; Flush sub-family (client = recording ResponseWriter+Flusher whose every call is a scheduling point tagged wrapper/handler thread): all scripts of <= 3 (4) actions from {header, status, write, flush} containing a flush x 4 endings, all scripts of <= 2 (3) actions x {stall, wait-for-context} x late scripts {F, WF, HF, CF} (all late scripts of <= 3 actions ending in a flush), client cancel on 4 scripts, and two requests through ONE TimeoutHandler (first times out with a late flushing handler, second completes; served one after the other and by two server threads); deadline-order family (T=0, P<=2 (4)): stalled work x {fx, zRPC server, REST} x parent {none, later 2dt, later 10dt, earlier dt/2, cancel at dt/2} with a marker timer at min(parent,dt)+1ms that must fire after the wrapper returned; chain family (chain.go): the same scripts with the handler bound through the real rest engine (newEngine/use/addRoutes/bindRoutes/router) in three middleware configurations (Timeout+Recover; every native middleware without process-wide clock state + a Server.Use middleware; Timeout + Server.Use without recover), the alphabet extended by WriteHeader with an invalid status code (0, 99, 1000: the writer panics) and by a panic after the stall / after the context ended, reference taken over the actions that completed, a recovered panic = status 500 unless committed; server-deadline family (restsrv-*): global timeout {0,300ms,3s} x every ordered tuple of 1-2 (3) route groups from {no own timeout, WithTimeout 100ms, WithTimeout 5s, WithSSE} registered through Server.AddRoutes and started through the real engine.start (http.Server captured before it listens): WriteTimeout, if set, is no earlier than any route's deadline, every route runs under its own deadline, event-stream requests bypass; distinct/non-trivial by (scenario, what the caller observed: full result, timeout result, re-raised panic)")
+		"every interleaving (preemption bound / timer-deviation bound per scenario in the evidence) of a handler script with the expiry of the deadline on the virtual clock and client cancellation, for all scripts of <= 3 (4 thorough) header/status/body actions x 4 endings on the REST TimeoutHandler, all work behaviours x parent deadlines on the zRPC server interceptor and fx.DoWithTimeout, all default x per-call x incoming-deadline combinations of the zRPC client interceptor, alone and inside the unary interceptor chain as the real client assembles it (trace, duration, prometheus, breaker, timeout middleware on/off) and all global x per-route REST timeout settings; Flush sub-family (client = recording ResponseWriter+Flusher whose every call is a scheduling point tagged wrapper/handler thread): all scripts of <= 3 (4) actions from {header, status, write, flush} containing a flush x 4 endings, all scripts of <= 2 (3) actions x {stall, wait-for-context} x late scripts {F, WF, HF, CF} (all late scripts of <= 3 actions ending in a flush), client cancel on 4 scripts, and two requests through ONE TimeoutHandler (first times out with a late flushing handler, second completes; served one after the other and by two server threads); deadline-order family (T=0, P<=2 (4)): stalled work x {fx, zRPC server, REST} x parent {none, later 2dt, later 10dt, earlier dt/2, cancel at dt/2} with a marker timer at min(parent,dt)+1ms that must fire after the wrapper returned; chain family (chain.go): the same scripts with the handler bound through the real rest engine (newEngine/use/addRoutes/bindRoutes/router) in three middleware configurations (Timeout+Recover; every native middleware without process-wide clock state + a Server.Use middleware; Timeout + Server.Use without recover), the alphabet extended by WriteHeader with an invalid status code (0, 99, 1000: the writer panics) and by a panic after the stall / after the context ended, reference taken over the actions that completed, a recovered panic = status 500 unless committed; server-deadline family (restsrv-*): global timeout {0,300ms,3s} x every ordered tuple of 1-2 (3) route groups from {no own timeout, WithTimeout 100ms, WithTimeout 5s, WithSSE} registered through Server.AddRoutes and started through the real engine.start (http.Server captured before it listens): WriteTimeout, if set, is no earlier than any route's deadline, every route runs under its own deadline, event-stream requests bypass; request-header family (reqhdr.go): 16 request-header forms that resemble an exempt request but are neither a websocket upgrade nor an event-stream request (Connection: Upgrade alone / with Upgrade: h2c or TLS/1.0, h2c offer, websocket key headers without Upgrade, Accept html / */* / json / text/event-stream;q=0, Content-Type: text/event-stream, ...) x {stalled handler with late writes, completing handler} (+ wait-for-context, engine chain, client cancel on 4 forms; on every form in the thorough tier): full timeout treatment demanded, and 4 exempt forms as real clients send them (RFC 6455 handshake, EventSource request) must bypass; large-body family: unflushed handler writes of 1 MiB, 4 MiB, 4 MiB+1, 8 MiB, 16 MiB (also 5 x 1 MiB, mixed with small writes, status/headers, Flush) followed by stall / wait-for-context / return / panic / client cancel, one through the engine chain and one pair of requests through one TimeoutHandler, the client recording run-length digests instead of bytes: either the whole body or exactly the timeout result, and nothing of an unfinished handler at the client unless the handler flushed; distinct/non-trivial by (scenario, what the caller observed: full result, timeout result, re-raised panic)")
 }
